@@ -378,5 +378,29 @@ func (c *Check) writerLifetime(rule string) {
 		}
 	}
 	c.floor(rule, n, 3, "writes of updateMessageWriter fields")
+	// the writer handed to the plugin is an object allocated for this session
+	// (a writer that lives in the FSM object is the same pointer in every
+	// session: one kept from an earlier session writes into a later one)
+	if est := p.Fn("fsm.established"); est != nil {
+		if inner := p.closureWithCall(est, descIs("invoke:Plugin.OnEstablished")); inner != nil {
+			a := NewAnalysis(p, inner)
+			a.Run()
+			seen := 0
+			for _, cl := range p.callsIn(inner, descIs("invoke:Plugin.OnEstablished")) {
+				for _, st := range a.At[cl.(ssa.Instruction)] {
+					seen++
+					args := a.argExprs(st, nil, cl.Common())
+					w := args[len(args)-1]
+					for w.Op == "makeiface" || w.Op == "conv" {
+						w = w.Args[0]
+					}
+					ok := w.Op == "alloc" && st.fresh[w.Key]
+					c.require(ok, rule, p.Name(inner), "writer allocated per session", p.InstrPos(cl.(ssa.Instruction)),
+						"the UpdateMessageWriter passed to OnEstablished is an object allocated in this entry of established(); got "+trunc(w.Key, 80))
+				}
+			}
+			c.floor(rule, seen, 1, "OnEstablished call sites analysed")
+		}
+	}
 	_ = types.Typ
 }
